@@ -69,6 +69,16 @@ PROPS = {
                              'LIVENESS ASSUMED, NOT DECIDED: every child process terminates or dies; Manager().Queue delivers what was put before the putter exited; display code does not block; only the safety core (no stuck state, measure, exit, dead workers are failed and freed) is proved',
                              'A-acyclic: dependencies are structurally nested (no cycles)'],
                 design_ref='7/C11'),
+    'C14': dict(functions=[f'{TC}.run', f'{PR}.wait', f'{SR}.wait', f'{PR}.cancel', f'{PR}.stop', f'{SR}.cancel', f'{SR}.stop',
+                           f'{PE}.cancel', f'{PE}.stop'],
+                interrupts={f'{TC}.run': 2, f'{PR}.wait': (1, 'during'), f'{SR}.wait': (1, 'during')},
+                lemmas=[], replay='replay.c14',
+                assumptions=['PRECONDITION: continue_on_failure=True, or no task fails after the interrupt (with continue_on_failure=False a failure during the drain raises LabError, which is C10\'s behaviour)',
+                             'interrupt instants covered (scope S1): every statement boundary of TaskCoordinator.run with process_completed_tasks inlined (first and second interrupt), including each point at which the wait() generator is suspended at a yield; callee bodies are atomic',
+                             'stdlib frames (queue.get, Thread.join, Process.start) are atomic; real signal delivery latency is not modelled',
+                             'what a terminate() in the middle of a save leaves behind is C13'],
+                not_covered=['interrupt instants inside TaskState methods and inside Runner/Executor methods other than the statement boundaries listed in the evidence (scope S2) are not decided by the verifier; the native line-injection replay (replay/c14.py) samples them'],
+                design_ref='7/C14'),
     'C16': dict(functions=[f'{PE}._start_processes', f'{PE}.submit', f'{PE}.wait', f'{SP}._submit_task', f'{SR}.wait'],
                 lemmas=[], replay='replay.c16',
                 assumptions=['TRUSTED: what fork and spawn mean (inherit memory vs fresh interpreter) is the semantics of multiprocessing; the obligation is that processes are created from the backend\'s own context object',
